@@ -32,6 +32,15 @@ PROPS = {
              "thorough": {"checks": 25000, "shards": 16, "timeout": 1800}},
         ],
     },
+    "C14": {
+        "level": "exploration",
+        "jobs": [
+            {"test": "TestC14", "variant": "std",
+             "quick": {"checks": 30, "shards": 12, "timeout": 400}},
+            {"test": "TestC14Enum", "variant": "std", "enum": True,
+             "thorough": {"checks": 1, "shards": 16, "timeout": 2400}},
+        ],
+    },
     "C16": {
         "level": "exploration",
         "jobs": [
